@@ -224,8 +224,8 @@ func runImpl(text string, p Params, db *chsim.DB, cluster bool) (out implResult)
 	node := nodeMap(cluster)
 	pctx := tables.PopulateTableNames(&shared.PlannerContext{
 		IsCluster:  cluster,
-		From:       time.Unix(fromNs/1000000000, 0),
-		To:         time.Unix(toNs/1000000000, 0),
+		From:       time.Unix(0, fromNs), // in the process's local zone (time.Local), as prepareOutput builds it
+		To:         time.Unix(0, toNs),
 		OrderASC:   false,
 		Limit:      100,
 		Ctx:        cctx,
